@@ -76,6 +76,13 @@ fn main() {
         }
         "probe-batch" => sweep::probe_batch_main(),
         "probe-decode" => sweep::probe_decode_main(args.get(2).map(|s| s.as_str()).unwrap_or(""), args.get(3).map(|s| s.as_str()).unwrap_or("")),
+        "encode" => {
+            // encode <reference-len> <frame as hex>...: prints the payload bytes as a JSON array
+            let n: usize = args.get(2).and_then(|s| s.parse().ok()).unwrap_or(4);
+            let frames: Vec<Vec<u8>> = args[3..].iter().map(|h| (0..h.len() / 2).map(|i| u8::from_str_radix(&h[2 * i..2 * i + 2], 16).unwrap()).collect()).collect();
+            println!("{:?}", ggrs::verif::encode(&vec![0u8; n], &frames));
+            0
+        }
         "replay" => check::replay_file(args.get(2).expect("replay file")),
         "gen" => {
             let id = args.get(2).expect("property id");
